@@ -130,6 +130,9 @@ func splitLinesKeep(b []byte) [][]byte {
 	return out
 }
 
+// event times are expressed in several zones: UTC, the process's local zone (TZ is set for part of the workers) and fixed offsets
+var c03zones = []*time.Location{time.UTC, time.Local, time.FixedZone("", 5*3600+1800), time.Local, time.FixedZone("W", -8*3600)}
+
 func c03Worker(w *W) {
 	registerMonitorPlugins()
 	tag := log.RegisterTag("c03tag")
@@ -195,7 +198,7 @@ func c03Worker(w *W) {
 			if l < 1 {
 				l = 1
 			}
-			ev := &c03ev{id: fmt.Sprintf("id-g%dx%d-%d", g, si, i), t: base.Add(time.Duration(g*977+i*337) * time.Millisecond), payload: c03payload(g, i, l), level: (g + i) % 5, shared: own}
+			ev := &c03ev{id: fmt.Sprintf("id-g%dx%d-%d", g, si, i), t: base.Add(time.Duration(g*977+i*337) * time.Millisecond).In(c03zones[(g+2*i)%len(c03zones)]), payload: c03payload(g, i, l), level: (g + i) % 5, shared: own}
 			if ev.level == 4 {
 				fg := &fgen{r: newRng(w.Spec.Seed, uint64(w.Spec.Shard)*1_000_003+uint64(g)*100_003+uint64(i)+303), feats: map[string]bool{}}
 				fs, _ := fg.fields(0, 5)
@@ -363,7 +366,7 @@ func init() {
 	register(&Prop{
 		ID: "C03", Level: "exploration", MinDistinct: 20, Worker: c03Worker,
 		Rule: "workloads: 12 synchronous paths (a Discard appender referenced before and after a console appender; built-in console logger before Refresh; Refresh-built Logger -> Console/File/RollingFile appenders with Text/JSON layouts; logger-level layout fanning out to console+file; two appenders with different layouts; Console/File/RollingFile logger kinds) x bufferCap {10KB, 1KB, 8KB} x G in {4,8,16,64} goroutines (race build: G<=16); " +
-			"line sizes: 55% 10-200 B, 30% a dense sweep of 300 consecutive payload lengths across the buffer cap (so that lines of exactly cap bytes occur), 10% around cap, 5% beyond 2x cap; per-event deterministic timestamps spread over many seconds; the console sink consumes each chunk piecewise with yields. " +
+			"line sizes: 55% 10-200 B, 30% a dense sweep of 300 consecutive payload lengths across the buffer cap (so that lines of exactly cap bytes occur), 10% around cap, 5% beyond 2x cap; per-event deterministic timestamps spread over many seconds and expressed in UTC, the local zone (TZ = unset / Asia/Kolkata / America/St_Johns per worker) and two fixed offsets; the console sink consumes each chunk piecewise with yields. " +
 			"Between the two phases one workload per path runs 12000 (thorough 100000) bursts in which four goroutines log one event each; when the four calls have returned the console holds exactly their four chunks and a file has grown by exactly their bytes. Oracle: each event is first logged alone (sequential phase), then all events are logged concurrently; every chunk (console) / line (files) of the concurrent phase must be byte-identical to the same event's line from the sequential phase, exactly once per event and sink. The race build runs the same workload under the Go race detector; every report with a library frame is a violation. " +
 			"Non-trivial/distinct = distinct (path, bufferCap, G, build flavour) workloads that matched completely.",
 		Assumptions: []string{"file sinks are read at quiescent points (no writer active)", "interleavings are whatever the scheduler produced on 16 cores (observed overlap is reported as max_inflight_console_writes), not enumerated"},
@@ -397,6 +400,11 @@ func init() {
 						add("race", su, "1KB", g, 1200)
 						add("race", su, "8KB", g, 400)
 					}
+				}
+			}
+			for i := range specs {
+				if z := []string{"", "Asia/Kolkata", "America/St_Johns"}[i%3]; z != "" {
+					specs[i].Env = append(specs[i].Env, "TZ="+z)
 				}
 			}
 			specs = d.WithRuntimeVariants(specs, int(d.Pick(4, 2)), nil)
